@@ -22,6 +22,7 @@ type Clause struct {
 	Callee  string
 	CallOrd int // -1 = every call
 	Local   bool // lensures: not exported to callers
+	AssumeOnly bool // loop n assume: assumed at the loop head, never proved
 	File    string
 	Line    int
 }
@@ -454,7 +455,12 @@ func (ct *ContractTable) parseFile(repo, file string) error {
 					return errf("%v", err)
 				}
 				cl := Clause{Kind: kind, Tags: tags, Label: label, Expr: e, Src: src, Loop: n, File: file, Line: it.line}
-				if kind == "invariant" {
+				if kind == "assume" {
+					// assumed at the loop head in every iteration, never proved (trusted, listed in the evidence)
+					cl.Kind = "invariant"
+					cl.AssumeOnly = true
+					cur.LoopInv[n] = append(cur.LoopInv[n], cl)
+				} else if kind == "invariant" {
 					cur.LoopInv[n] = append(cur.LoopInv[n], cl)
 				} else if kind == "decreases" {
 					cur.LoopDec[n] = cl
